@@ -3,6 +3,6 @@ CONSTANTS
   Streams <- TEmpty
   MaxFrame = 65535
   ZeroLenBody = "empty"
-INVARIANTS ExactFrames NoOverConsumption RejectConsumes
+INVARIANTS ExactFramesL NoOverConsumption RejectConsumes
 POSTCONDITION Accepted
 CHECK_DEADLOCK FALSE
